@@ -24,7 +24,7 @@ Ok(r) ==
   IN /\ r.seq.d = GetChain(ch, st.d) /\ r.compose.d = r.seq.d
      /\ r.seq.c = r.compose.c
      /\ Has(r.seq.c, "variable") /\ Has(r.combine.c, "variable")
-     /\ r.seq.c.m["variable"].m["name"] = VC(ch[Len(ch)]).m["name"]
+     /\ Contains(r.seq.c.m["variable"], LastVC(ch))
      /\ (AllTyped(ch) /\ DistinctTypes(ch)) =>
            /\ Contains(r.seq.c.m["variable"], Required(st.c, ch))
            /\ Contains(r.compose.c.m["variable"], Required(st.c, ch))
